@@ -2614,6 +2614,24 @@ func (c *Ctx) checkStoredMarksReportedClamped() {
 		}
 		for _, st := range core.StoresToField(fn, out) {
 			v := core.Strip(st.Val)
+			// the marks computed by a helper (`read, recv := reportedMarks(sub)`): what the helper returns
+			if ex, ok := v.(*ssa.Extract); ok {
+				if call, ok := ex.Tuple.(*ssa.Call); ok {
+					if g := call.Call.StaticCallee(); g != nil && core.InModule(g) && len(g.Blocks) > 0 {
+						var rv ssa.Value
+						nret := 0
+						core.AllInstrs(g, func(in ssa.Instruction) {
+							if ret, ok := in.(*ssa.Return); ok && ex.Index < len(ret.Results) {
+								nret++
+								rv = ret.Results[ex.Index]
+							}
+						})
+						if nret == 1 && rv != nil {
+							v = core.Strip(rv)
+						}
+					}
+				}
+			}
 			if !core.Derives(v, core.IsFieldLoad(recvS), false) && !isMaxOf(v, recvS, readS) {
 				continue // not a report of stored marks (a converter, a literal)
 			}
